@@ -63,6 +63,8 @@ def setup(root):
 
 def gen_case(rng, tier):
     case = S.gen_workload(rng, faults=True)
+    if rng.random() < 0.3:
+        case['sp_snapshot'] = True
     case['pair_seed'] = rng.getrandbits(32)
     case['pairs'] = 6 if tier == 'quick' else 40
     return case
@@ -468,6 +470,14 @@ def _run_faulted(case, pre, plan_faults, labels, log, out, second_party=None, sp
                     ino.data.extend(b'SECOND PARTY')
                     ino.synced = bytes(ino.data)
                     act.fired = True
+                    if case.get('sp_snapshot') and second_party == 'dest' and sim.fs.lookup(pre.part) is not None \
+                            and pre.part not in sim.fs.symlinks:
+                        # ... and it is a backup job that also snapshots the directory with hard links (cp -l):
+                        # the part file of the save in progress now has a second name
+                        snap = sim.fs.abspath(S.DIR + '/snapshot-of-part')
+                        i = sim.fs.dir[pre.part]
+                        sim.fs.dir[snap] = i
+                        sim.fs.inodes[i].nlink += 1
             act.fired = False
             hooks.act = act
             return {sp_key: act}
